@@ -329,6 +329,25 @@ func runC15(w *World, r *Report) {
 	// a value that a branch of the function found to be nil is not dereferenced on a path from that branch
 	nilCheckedThenUsed(w, r, "nil-checked-then-used", fns)
 
+	// an entry is never assigned in a map that can be nil (a write to a nil map panics; a read does not)
+	r.rule("map-write-needs-allocated-map", "every map assignment in the wire-facing packages writes to a map that is allocated on every path to it — followed through φ, local variables and the results of repo helpers (a helper that allocates its result lazily returns nil when nothing was added)", 3)
+	nMU := 0
+	for _, fn := range append(append([]*ssa.Function{}, fns...), w.RepoFuncs("webhooks")...) {
+		instrsOf(fn, func(in ssa.Instruction) {
+			mu, ok := in.(*ssa.MapUpdate)
+			if !ok {
+				return
+			}
+			if _, isMap := mu.Map.Type().Underlying().(*types.Map); !isMap {
+				return
+			}
+			nMU++
+			why := mapMayBeNil(w, mu.Map, 3, map[ssa.Value]bool{})
+			r.check(why == "", "map-write-needs-allocated-map", fmt.Sprintf("%s/%s[…]=", shortFn(fn), pathOf(mu.Map)), lineOf(w, mu), "the map written to is allocated on every path", why)
+		})
+	}
+	r.Extra["map_writes"] = nMU
+
 	// shared tables are only touched under their lock (an unsynchronised map access aborts the process)
 	tablesUnderLock(w, r, "shared-table-under-lock")
 
@@ -479,4 +498,87 @@ func nilCheckedThenUsed(w *World, r *Report, rule string, fns []*ssa.Function) {
 		r.ok(rule, "all", "-", fmt.Sprintf("%d nil-tested values examined, none dereferenced on its nil path", nTests))
 	}
 	r.Extra["nil_tested_values"] = nTests
+}
+
+
+// mapMayBeNil: can map value v be nil? "" when every origin is an allocation (or unknown storage that is assumed
+// allocated: fields, parameters, results of foreign calls); otherwise what makes it nil.
+func mapMayBeNil(w *World, v ssa.Value, depth int, seen map[ssa.Value]bool) string {
+	if v == nil || seen[v] {
+		return ""
+	}
+	seen[v] = true
+	switch x := v.(type) {
+	case *ssa.MakeMap:
+		return ""
+	case *ssa.Const:
+		if x.Value == nil {
+			return "the nil map constant (a variable declared without make) at " + w.Pos(x.Pos())
+		}
+	case *ssa.ChangeType:
+		return mapMayBeNil(w, x.X, depth, seen)
+	case *ssa.Phi:
+		hb := x.Block()
+		for i, e := range x.Edges {
+			// an edge taken because this very value was found non-nil
+			if i < len(hb.Preds) {
+				p := hb.Preds[i]
+				nonNil := false
+				for si, sb := range p.Succs {
+					if sb != hb {
+						continue
+					}
+					for _, f := range edgeFacts(Edge{p, si}) {
+						if f.kind == fNotNil && f.x == e {
+							nonNil = true
+						}
+					}
+				}
+				if nonNil {
+					continue
+				}
+			}
+			if s := mapMayBeNil(w, e, depth, seen); s != "" {
+				return s
+			}
+		}
+	case *ssa.Extract:
+		if c, ok := x.Tuple.(*ssa.Call); ok {
+			return mapResultMayBeNil(w, c, x.Index, depth, seen)
+		}
+	case *ssa.Call:
+		return mapResultMayBeNil(w, x, 0, depth, seen)
+	case *ssa.UnOp:
+		if al, ok := x.X.(*ssa.Alloc); ok && x.Op == token.MUL {
+			n := 0
+			for _, ref := range *al.Referrers() {
+				if st, ok := ref.(*ssa.Store); ok && st.Addr == ssa.Value(al) {
+					n++
+					if s := mapMayBeNil(w, st.Val, depth, seen); s != "" {
+						return s
+					}
+				}
+			}
+			if n == 0 {
+				return "variable " + al.Comment + " is never assigned a map"
+			}
+		}
+	}
+	return ""
+}
+
+func mapResultMayBeNil(w *World, c *ssa.Call, idx, depth int, seen map[ssa.Value]bool) string {
+	cal := c.Call.StaticCallee()
+	if cal == nil || !isRepoFunc(cal) || len(cal.Blocks) == 0 || depth <= 0 {
+		return ""
+	}
+	for _, ret := range returnsOf(cal) {
+		if idx >= len(ret.Results) {
+			continue
+		}
+		if s := mapMayBeNil(w, ret.Results[idx], depth-1, seen); s != "" {
+			return shortFn(cal) + " can return " + s
+		}
+	}
+	return ""
 }
